@@ -145,7 +145,10 @@ func readDuration(source []byte) (val CqlDuration, wasNull bool, err error) {
 				nanos, rn, err = primitive.ReadVint(reader)
 				if err == nil {
 					read := rm + rd + rn
-					if length == read {
+					if months != int64(int32(months)) || days != int64(int32(days)) {
+						// months and days are 32-bit integers; refuse to truncate silently
+						err = fmt.Errorf("duration months or days out of range: %d, %d", months, days)
+					} else if length == read {
 						val.Months = int32(months)
 						val.Days = int32(days)
 						val.Nanos = time.Duration(nanos)
